@@ -21,6 +21,8 @@ Scenario:
   ["restore"]: the REAL api function put_ports (PUT /ports, backup_support on) is given the hub's own current GET /ports
   document (real get_ports) -- every port is reset() and its attributes / expression / value are restored -- followed by one
   pass.  Logged: the last values before and after, and what each driver would have answered to a read at that moment.
+  A port spec may carry "tr": ["mul", k] | ["add", k] = a read transform MUL($, k) / ADD($, k); the logged driver values are
+  then the transformed ones (what a successful read yields).
   K in FAULTS or null.  A "set" (the outside world changes what the driver of a port reads) takes effect at the instant of the
   next tick, immediately before its pass: passes triggered by writes to *other* ports (which exist only in the run with the
   faulty ports) must not sample a source at an instant at which the reference run has no pass.  All dt are multiples of 125 ms, so every virtual time is a dyadic rational and the float arithmetic of
@@ -35,7 +37,8 @@ import json
 import sys
 import types
 
-FAULTS = ['PortReadError', 'Exception', 'OSError', 'TimeoutError', 'SkipRead']
+FAULTS = ['PortReadError', 'Exception', 'OSError', 'TimeoutError', 'SkipRead', 'PortError', 'PortTimeout', 'PortLoadError',
+          'RuntimeError']        # every exception class of core/ports.py + common built-ins; SkipRead = "skip"
 SETTLE_ROUNDS = 400
 STUCK_S = 120.0        # VIRTUAL seconds after which an awaited pass / API call counts as stuck (drivers have zero latency)
 
@@ -81,6 +84,7 @@ class Env:
         self.settings, self.core_api, self.core_events, self.main, self.core_ports = settings, core_api, core_events, main, core_ports
         self.api_ports, self.ev_handlers, self.timedset = api_ports, ev_handlers, timedset
         self.rec = None
+        self.pass_lock = None
         env = self
 
         def make_exc(kind):
@@ -96,6 +100,10 @@ class Env:
                 return core_ports.PortError('scripted port error')
             if kind == 'PortTimeout':
                 return core_ports.PortTimeout('scripted port timeout')
+            if kind == 'PortLoadError':
+                return core_ports.PortLoadError('scripted port load error')
+            if kind == 'RuntimeError':
+                return RuntimeError('scripted runtime error')
             if kind == 'CancelledError':       # probes only: a BaseException, outside the fault alphabet
                 return asyncio.CancelledError()
             return Exception('scripted failure')
@@ -117,7 +125,7 @@ class Env:
 
             # ---- driver
             async def read_value(self):
-                env.log(['read', self.get_id()])
+                env.log(['read', self.get_id(), self.c15_readback(canon(self.c15_drv))])
                 if self.c15_hang is not None:
                     await self.c15_hang
                 if self.c15_latency:
@@ -127,9 +135,16 @@ class Env:
                     raise make_exc(k)
                 return self.c15_drv
 
+            def c15_readback(self, v):
+                """what a successful read_transformed_value() yields when the driver returns v (spec 'tr': read transform)"""
+                tr = self.c15_spec.get('tr')
+                if v is None or not tr:
+                    return v
+                return canon(v * tr[1] if tr[0] == 'mul' else v + tr[1])
+
             async def write_value(self, value):
                 k = self.c15_mode['write']
-                env.log(['write', self.get_id(), canon(value), 'exc' if k else 'ok'])
+                env.log(['write', self.get_id(), canon(value), 'exc' if k else 'ok', self.c15_readback(canon(value))])
                 if k:
                     raise make_exc('PortError' if k == 'PortReadError' else ('PortTimeout' if k == 'SkipRead' else k))
                 self.c15_drv = value
@@ -197,15 +212,20 @@ class Env:
         async def update_wrapper():
             if not env.main._updating_enabled:       # update() returns at once (e.g. during PUT /ports): not a pass
                 return await env.orig_update()
-            origin = env.origin()
-            env.log(['pass', env.now_ms(), origin, env.outs(), env.values()])
-            try:
-                await env.orig_update()
-            except Exception as e:  # noqa: BLE001
-                env.log(['pass_exc', type(e).__name__])
-                raise
-            finally:
-                env.log(['pass_end', env.values()])
+            # update() serialises passes with its own lock; the same (fair, FIFO) serialisation here makes the log say when a
+            # pass really starts -- a pass is not atomic when a read transform is evaluated (function calls suspend)
+            if env.pass_lock is None:
+                env.pass_lock = asyncio.Lock()
+            async with env.pass_lock:
+                origin = env.origin()
+                env.log(['pass', env.now_ms(), origin, env.outs(), env.values()])
+                try:
+                    await env.orig_update()
+                except Exception as e:  # noqa: BLE001
+                    env.log(['pass_exc', type(e).__name__])
+                    raise
+                finally:
+                    env.log(['pass_end', env.values()])
 
         main.update = update_wrapper
 
@@ -253,9 +273,23 @@ class Env:
             d[p.get_id()] = [bool(m['hb']), rd, bool(m['attr'])]
         return d
 
+    @staticmethod
+    def readback(p):
+        """what a successful read of p would yield now (driver value through the read transform)"""
+        if not hasattr(p, 'c15_readback'):
+            return None
+        return p.c15_readback(canon(p.c15_drv))
+
+    @staticmethod
+    def tr_text(ps):
+        tr = ps.get('tr')
+        if not tr:
+            return None
+        return ('MUL($, %d)' if tr[0] == 'mul' else 'ADD($, %d)') % tr[1]
+
     def values(self):
         """{port: [last value, what the driver would return, enabled]}"""
-        return {p.get_id(): [canon(p.get_last_read_value()), canon(getattr(p, 'c15_drv', None)), p.is_enabled()]
+        return {p.get_id(): [canon(p.get_last_read_value()), self.readback(p), p.is_enabled()]
                 for p in self.core_ports.get_all()}
 
     # ---- one run
@@ -272,6 +306,7 @@ class Env:
         self.ev_handlers._enabled = True
         self.cur_origin = 'setup'
         self.spin_vt, self.spin_n, self.livelock, self.main_task = None, 0, False, None
+        self.pass_lock = None
 
     def busy(self):
         """ports with a queued or running evaluation / write ('*' = a pass holds the update lock)"""
@@ -304,7 +339,7 @@ class Env:
     def state(self):
         st = {}
         for p in self.core_ports.get_all():
-            st[p.get_id()] = [canon(p.get_last_read_value()), canon(getattr(p, 'c15_drv', None)),
+            st[p.get_id()] = [canon(p.get_last_read_value()), self.readback(p),
                               bool(p in self.main._ports_with_read_error._set), bool(p.is_loaded()), bool(p.is_enabled())]
         return st
 
@@ -338,6 +373,8 @@ class Env:
             d = {'id': ps['id'], 'enabled': bool(ps.get('enabled', True))}
             if ps.get('expr') is not None:
                 d['expression'] = self.expr_text(ps['expr'])
+            if ps.get('tr'):
+                d['transform_read'] = self.tr_text(ps)
             if ps.get('value0') is not None:
                 d['value'] = ps['value0']
             await persist.replace(cp.BasePort.PERSIST_COLLECTION, ps['id'], d)
@@ -370,6 +407,10 @@ class Env:
         else:
             ports = await cp.load([self.port_args(ps) for ps in sc['ports']], trigger_add=False)
             for p, ps in zip(ports, sc['ports']):
+                if ps.get('tr'):
+                    await p.set_attr('transform_read', self.tr_text(ps))
+                    if p._transform_read is None:
+                        raise RuntimeError('read transform not set on %s' % ps['id'])
                 if ps.get('enabled', True):
                     await p.enable()
             for p, ps in zip(ports, sc['ports']):
@@ -401,7 +442,7 @@ class Env:
                         if cp.get(pid_) is None:
                             continue
                         cp.get(pid_).c15_drv = v_
-                        self.log(['set', pid_, v_])
+                        self.log(['set', pid_, self.readback(cp.get(pid_))])
                     pending_sets = []
                     self.cur_origin = 'tick'
                     how, _r = await self.bounded(main.update())     # an exception: update_loop logs it and carries on
@@ -639,7 +680,7 @@ def own_port_check(run):
     for it in run.get('log') or []:
         k = it[1]
         if k == 'pass':
-            cur = {'now': it[2], 'outs': it[4], 'before': it[5], 'reads': [], 'vt': it[0]}
+            cur = {'now': it[2], 'outs': it[4], 'before': it[5], 'reads': {}, 'vt': it[0]}
         elif k == 'restore':
             rst = {'outs': it[2], 'before': it[3], 'vt': it[0]}
         elif k == 'restore_end':
@@ -650,7 +691,7 @@ def own_port_check(run):
                     return {'rule': 'last-good-value', 'port': p, 'vtime_ms': rst['vt'], 'outcome': rd + ' (read while PUT /ports '
                             'restores the ports)', 'last_value_before': last, 'last_value_after': it[2][p][0]}
         elif k == 'read' and cur is not None:
-            cur['reads'].append(it[2])
+            cur['reads'][it[2]] = it[3] if len(it) > 3 else None     # what the driver answers at that very moment
         elif k == 'pass_exc' and cur is not None:
             cur['exc'] = True
         elif k == 'pass_end' and cur is not None:
@@ -673,6 +714,7 @@ def own_port_check(run):
                         parked_at[p] = cur['now']
                 new = after[p][0]
                 if was_read and rd == 'val':
+                    drv = cur['reads'][p]
                     if new != drv:
                         return {'rule': 'recover', 'port': p, 'vtime_ms': cur['vt'], 'driver_value': drv, 'last_value_after': new}
                 elif new != last:
@@ -706,16 +748,19 @@ def follow_check(sc, run):
                 return v                       # the first failing argument decides
         return canon(a + b)
 
+    in_pass = False
     for i, it in enumerate(log):
         k = it[1]
         if k == 'pass':
             pushes = []
+            in_pass = True
         elif k == 'push':
             pushes.append(it[2])
         elif k in ('pass_end', 'restore_end'):
             vals = it[2]
             lasts.update({p: v[0] for p, v in vals.items()})
             if k == 'pass_end':
+                in_pass = False
                 snap = {p: v[0] for p, v in vals.items() if v[2]}
                 for p in pushes:
                     queue.setdefault(p, []).append(snap)
@@ -725,6 +770,8 @@ def follow_check(sc, run):
             if not queue.get(p) or not exprs.get(p):
                 continue
             want = value_of(exprs[p], queue[p].pop(0))
+            if in_pass:
+                continue       # evaluated while a pass was suspended in a read transform: the last value is in flux
             nxt = log[i + 1] if i + 1 < len(log) else None
             wrote = nxt is not None and nxt[1] == 'evalwrite' and nxt[2] == p
             expect = want != 'fail' and want != lasts.get(p)
